@@ -228,6 +228,20 @@ def gen_e4():
     yield "NEG - NEG == 0", env, "E4"
     yield "2 NEG == 1", env, "E4"          # 2 -1
     yield "FL + FL2 + FL0 == 0", env, "E4"
+    # macros whose names are words of the implementation language
+    env2 = dict(env, **{"None": "1", "True": "2", "False": "0", "self": "3", "print": "4", "__init__": "5", "lambda": "6"})
+    for e_ in ("None", "None == 1", "None + True == 3", "defined(None) && None", "self * print == 12", "!False && __init__ == 5", "lambda - None == 5",
+               "None None 0" if False else "(None)", "-None == -1"):
+        yield e_, env2, "E4"
+    # literals padded with zeros beyond the width of the widest type
+    for e_ in ("0x00000000000000001 == 1", "0x000000000000000000000000ff == 255", "000000000000000000000000017 == 15", "0b" + "0" * 70 + "101 == 5",
+               "00000000000000000000000000000000 == 0", "0x0000000000000000ffffffffffffffffu == 18446744073709551615u", "0000000000000000000000001u + 1 == 2"):
+        yield e_, env, "E4"
+    # character constants that spell an operator are operands
+    for e_ in ("'-' - 1 == 44", "'+' + 1 == 44", "'!' + 1 == 34", "'~' - 1 == 125", "'-' - '+' == 2", "- '-' == -45", "'*' * 2 == 84", "'(' + ')' == 81",
+               "'<' < '>'", "'?' ? 1 : 0", "('&' & 1) == 0", "('|' | 1) == 125", "!'!' == 0", "~'~' == -127", "'/' / 2 == 23", "'%' % 10 == 7", "'=' == 61",
+               "'^' ^ 1", "',' == 44", "':' ? ':' : 0", "1 ? '-' - 1 : 0"):
+        yield e_, env, "E4"
     # a macro defined with an empty replacement list expands to nothing (it is not 1, and not 0 either)
     for e_ in ("EMPTY + 1 == 1", "EMPTY - 1 < 0", "! EMPTY 0", "(EMPTY 1)", "EMPTY EMPTY 2 == 2", "1 EMPTY + EMPTY 1 == 2", "EMPTY + 0",
                "-EMPTY 1 == -1", "EMPTY defined(EMPTY)", "2 * EMPTY 3 == 6"):
